@@ -260,7 +260,7 @@ impl Prop for C14 {
         vec!["LCS inputs capped at 160 items".into()]
     }
     fn stages(tier: Tier) -> Vec<Stage<Case>> {
-        vec![Stage { name: "random", kind: StageKind::Random { strategy: strat, cases: tier.pick(12_000, 200_000) } }]
+        vec![Stage { name: "random", kind: StageKind::Random { strategy: strat, cases: tier.pick(40_000, 250_000) } }]
     }
     fn check(case: &Case, obs: &mut Obs) -> Verdict {
         check(case, obs)
